@@ -28,16 +28,24 @@ def run(ctx):
                 "ungroup(group(stream)) with the surviving notes the spec names, and impl vs model on ungroup itself. "
                 "non-trivial: grouping succeeded and the stream has a joined hold; distinct by hash")
     reqs, meta = [], []
+    raised = []
     for kind, notes, o in jobs:
         notes = [[n[0], n[1], n[2], n[3], None if n[2] == "3" else n[4]] for n in notes]
         g = c09.impl_group(notes, o)
         if "ok" not in g:
-            res.count("group-raised"); continue
+            # grouping refused the stream: that is only right when the documented rules refuse it too (an orphan under a
+            # RAISE policy) — asked of the Lean spec below
+            res.count("group-raised"); raised.append((notes, o, g)); continue
         pol = rng.choice(c09.POLICIES)
         meta.append((notes, o, g["ok"], pol))
         reqs.append({"op": "group.ungroup", "groups": g["ok"], "policy": pol})
         reqs.append({"op": "spec.survivors", "notes": notes, "opts": o})
     resp = ctx.lean.eval_sharded(reqs, shards=16)
+    rresp = ctx.lean.eval_sharded([{"op": "spec.group", "notes": n_, "opts": o_} for n_, o_, _ in raised[:4000]], shards=16)
+    for (n_, o_, g_), sp in zip(raised, rresp):
+        res.traces += 1
+        if "ok" in sp:
+            res.violation({"notes": n_[:80], "opts": o_}, "group_notes refused a stream the documented rules accept (so the round trip is lost)", impl=g_)
     for i, (notes, o, groups, pol) in enumerate(meta):
         model, surv = resp[2 * i], resp[2 * i + 1]
         impl = impl_ungroup(groups, pol)
